@@ -340,7 +340,11 @@ fn first_diff(
             }
             return Some(i);
         }
-        if is_model && (!engine.model_compared(&ops[i]) || y == "model-timeout") {
+        // `pcall` (a host function that swallows its callee's error) exists in the implementation
+        // and in the reference semantics (engine `sem`) only, not in the VM model: see VmEngine
+        // (the model's state is off from that line on: the rest of the case is not compared either)
+        let uses_pcall = engine.name() != "sem" && ops[..=i].iter().any(|o| o.contains("$7063616c6c"));
+        if is_model && (!engine.model_compared(&ops[i]) || y == "model-timeout" || uses_pcall) {
             continue;
         }
         if is_model {
